@@ -279,6 +279,17 @@ def main_check(prop_id, modname, argv):
         print('lean build failed:\n' + build_out)
     audit = lean_audit(prop_id, log) if ok_build else dict(obligations=0, discharged=0,
                                                            problems=['lake build failed'], theorems=[])
+    if ok_build and tier == 'thorough' and os.environ.get('VERIF_LEANCHECKER', '1') != '0':
+        # independent re-check of the compiled property module (and everything it imports) by Lean's external checker
+        t0 = time.time()
+        try:
+            p = subprocess.run(['lake', 'env', 'leanchecker', 'T4V.Props.%s' % prop_id], cwd=LEAN_DIR,
+                               capture_output=True, text=True, timeout=1800)
+            log.append('leanchecker T4V.Props.%s: rc=%d in %.1fs' % (prop_id, p.returncode, time.time() - t0))
+            if p.returncode != 0:
+                audit['problems'].append('leanchecker rejects T4V.Props.%s: %s' % (prop_id, (p.stdout + p.stderr)[-600:]))
+        except (OSError, subprocess.TimeoutExpired) as e:
+            log.append('leanchecker not run: %s' % e)
     proof_broken = bool(audit['problems'])
 
     # 2-4 corpus, generated cases, monitors ------------------------------------------------
